@@ -411,7 +411,9 @@ func (p *Process) stopProcess(cancelReadinessFuncs bool) error {
 		// stop (readiness probe failure) the restart policy still applies
 		p.runCancelFn()
 	}
-	if !p.isRunning() {
+	// the check and the change of state are one step: the command may exit (and the
+	// process be reported Completed) at any moment
+	if !p.setTerminatingIfRunning() {
 		log.Debug().Msgf("process %s is in state %s not shutting down", p.getName(), p.getStatusName())
 		// prevent pending process from running. An instance created by a manual start or
 		// restart waits for its dependencies under whatever state the previous instance
@@ -421,7 +423,6 @@ func (p *Process) stopProcess(cancelReadinessFuncs bool) error {
 		}
 		return nil
 	}
-	p.setState(types.ProcessStateTerminating)
 	p.stopProbes()
 	if cancelReadinessFuncs {
 		if p.readyProber != nil {
@@ -720,6 +721,18 @@ func (p *Process) isOneOfStates(states ...string) bool {
 		if p.procState.Status == state {
 			return true
 		}
+	}
+	return false
+}
+
+func (p *Process) setTerminatingIfRunning() bool {
+	p.stateMtx.Lock()
+	defer p.stateMtx.Unlock()
+	switch p.procState.Status {
+	case types.ProcessStateRunning, types.ProcessStateLaunched, types.ProcessStateLaunching:
+		p.procState.Status = types.ProcessStateTerminating
+		p.onStateChange(types.ProcessStateTerminating)
+		return true
 	}
 	return false
 }
